@@ -369,8 +369,8 @@ def gen_cases(ctx: Ctx, deep: bool):
         yield {"fn": "crop_to_bbox", "shape": shp, "bbox": coords + size, "fill": rng.choice([0, 0, 1, 3] if dt != "bool" else [0, 1]),
                "dtype": dt, "path": rng.choice(["numpy", "torch"]), "layout": rng.choice(layouts[:4]),
                "form": rng.choice(["list", "tuple", "ndarray"])}
-    yield {"fn": "crop_to_bbox", "shape": [4], "bbox": [-1, 3], "fill": 1, "dtype": "bool", "path": "torch"}    # pending finding, once per run
-    yield {"fn": "bbox_twin", "shape": [5, 2], "bbox": [13, 3, 2, 5], "fill": 0}                                   # pending finding, once per run
+    yield {"fn": "crop_to_bbox", "shape": [4], "bbox": [-1, 3], "fill": 1, "dtype": "bool", "path": "torch"}    # defect of the pinned tree, once per run
+    yield {"fn": "bbox_twin", "shape": [5, 2], "bbox": [13, 3, 2, 5], "fill": 0}                                   # defect of the pinned tree, once per run
     for _ in range(20 if not big else 200):
         shp = shape(rng.randint(1, 3), 1, 5)
         yield {"fn": "bbox_twin", "shape": shp, "bbox": [rng.randint(-3, n - 1) for n in shp] + [rng.randint(1, n + 3) for n in shp],
@@ -380,7 +380,7 @@ def gen_cases(ctx: Ctx, deep: bool):
         rank = rng.randint(1, 3)
         yield {"fn": "crop_to_largest", "shapes": [shape(rank, 1, 5) for _ in range(rng.randint(1, 4))],
                "fill": rng.choice([0, 0, 9]), "path": rng.choice(["numpy", "torch"]), "dtype": rng.choice(["float32", "int64"])}
-    yield {"fn": "crop_to_largest", "shapes": [[2, 3], [3, 3]], "fill": 0, "path": "torch"}                      # pending finding, once per run
+    yield {"fn": "crop_to_largest", "shapes": [[2, 3], [3, 3]], "fill": 0, "path": "torch"}                      # defect of the pinned tree, once per run
     yield {"fn": "crop_to_largest", "shapes": [], "fill": 0, "path": "torch"}
     # ---- complex_center_crop / complex_random_crop: every option
     for _ in range(120 if not big else 1500):
@@ -417,7 +417,7 @@ def gen_cases(ctx: Ctx, deep: bool):
             elif rng.random() < 0.3:
                 c["sampler"] = "uniform"
         yield c
-    yield {"fn": "complex_random_crop", "shape": [2, 5, 6, 2], "crop": [3, 4], "sampler": "gaussian", "sigma": [1.5], "seed": 3}  # pending
+    yield {"fn": "complex_random_crop", "shape": [2, 5, 6, 2], "crop": [3, 4], "sampler": "gaussian", "sigma": [1.5], "seed": 3}  # defect of the pinned tree
     yield {"fn": "complex_random_crop", "shape": [2, 5, 6, 2], "crop": [3, 4], "sampler": "gaussian", "sigma": [1.0, 2.0, 3.0],
            "expect": "raises", "why": "three sigmas for a two-axis crop"}
     yield {"fn": "complex_random_crop", "shape": [2, 5, 6, 2], "crop": [3, 4], "sampler": "uniform", "sigma": 1.0,
